@@ -64,7 +64,7 @@ def handleSsf : List Sexp → Option String
     let ys := (← asInt? y0, ← asInt? y1)
     let zs := (← asInt? z0, ← asInt? z1)
     let iv : Axis → Int × Int := fun a => match a with | .x => xs | .y => ys | .z => zs
-    let rows ← rows.mapM hRow?
+    let rows ← rows.mapM fun r => match r with | list r => r.mapM asInt? | _ => none
     pure (toString (list ((bounds iv cols rows).map sInts)))
   | _ => none
 
